@@ -124,6 +124,23 @@ func c08Cases() []c08Case {
 			p1 := icPairs["p1"]
 			return fix.IBTPTx(snd.key, w.N.Next(snd.key), &pb.IBTP{From: p1.from, To: p1.to, Index: 2, TimeoutHeight: 3}, fix.GoodProof)
 		})
+		// IBTPs that are REFUSED (by the contract, by the proof check, before any contract runs), sent by an account that cannot pay
+		add("fee/"+snd.name+"/ibtp-request-wrong-index", func(w *fix.World) pb.Transaction {
+			p1 := icPairs["p1"]
+			return fix.IBTPTx(snd.key, w.N.Next(snd.key), &pb.IBTP{From: p1.from, To: p1.to, Index: 7, TimeoutHeight: 3}, fix.GoodProof)
+		})
+		add("fee/"+snd.name+"/ibtp-request-unknown-service", func(w *fix.World) pb.Transaction {
+			return fix.IBTPTx(snd.key, w.N.Next(snd.key), &pb.IBTP{From: fix.FullID(fix.ChainA, "0x00000000000000000000000000000000000000ff"), To: icPairs["p1"].to, Index: 1}, fix.GoodProof)
+		})
+		add("fee/"+snd.name+"/ibtp-request-proof-hash-mismatch", func(w *fix.World) pb.Transaction {
+			p1 := icPairs["p1"]
+			tx := fix.IBTPTx(snd.key, w.N.Next(snd.key), &pb.IBTP{From: p1.from, To: p1.to, Index: 2, TimeoutHeight: 3}, fix.GoodProof)
+			tx.GetIBTP().Proof = []byte("not the hash of the proof")
+			return resign(tx, snd.key)
+		})
+		add("fee/"+snd.name+"/ibtp-malformed-ids", func(w *fix.World) pb.Transaction {
+			return fix.IBTPTx(snd.key, w.N.Next(snd.key), &pb.IBTP{From: "a:b", To: ":::", Index: 1}, fix.GoodProof)
+		})
 	}
 	// Ethereum-style transactions: fine, and refused by each pre-check of the EVM's state
 	// transition (the executor reverts and finalises around them) or failing inside the EVM
